@@ -51,7 +51,9 @@ class Result:
 class Part:
     def __init__(self, name, kind, source, n=None, exhaustive=False, weight=1):
         """kind 'enum': source() -> iterable of cases (deterministic order);
-        kind 'gen':  source() -> hypothesis strategy of cases, n = number of cases"""
+        kind 'gen':  source() -> hypothesis strategy of cases, n = number of cases
+        kind 'machine': source() -> hypothesis RuleBasedStateMachine class with a case() method, n = number of histories
+        kind 'fuzz': source() -> dict(decoder='module:function', seconds=.., max_len=..) for an atheris campaign"""
         self.name, self.kind, self.source, self.n, self.exhaustive = name, kind, source, n, exhaustive
         self.weight = weight
 
@@ -163,7 +165,11 @@ def _worker(args):
         if part.kind == "fuzz":
             return _fuzz_job(modname, tier, part_idx, part, shard, seedval)
         coll = Collector(check)
-        if part.kind == "enum":
+        if part.kind == "machine":
+            n = part.n // nshards + (1 if shard < part.n % nshards else 0)
+            if n > 0:
+                _run_machine(part.source(), n, seedval, coll)
+        elif part.kind == "enum":
             for i, case in enumerate(part.source()):
                 if i % nshards == shard:
                     coll.run(case)
@@ -219,6 +225,25 @@ def _run_hypothesis(strategy, n, seedval, coll):
         coll.run(case)
 
     t()
+
+
+def _run_machine(machine_cls, n, seedval, coll):
+    """Hypothesis rule-based state machine as a *generator of histories*: its rules step a reference model (so that
+    preconditions and arguments can depend on the state reached) and record the operations; at teardown the recorded
+    op list - the JSON case - is executed against the library by the check's run_case and collected like any other case"""
+    from hypothesis import settings, seed, HealthCheck, Phase
+    from hypothesis.stateful import run_state_machine_as_test
+
+    class Recording(machine_cls):
+        def teardown(self):
+            case = self.case()
+            if case is not None:
+                coll.run(case)
+
+    Recording.__name__ = machine_cls.__name__
+    run_state_machine_as_test(seed(seedval)(Recording), settings=settings(
+        max_examples=n, stateful_step_count=getattr(machine_cls, "STEPS", 30), database=None, deadline=None, derandomize=False,
+        phases=[Phase.generate], suppress_health_check=list(HealthCheck), report_multiple_bugs=False))
 
 
 def _subseed(seed, part_idx, shard):
@@ -403,6 +428,8 @@ def main(modname, tier, seed):
     jobs = []
     for pi, part in enumerate(parts):
         nsh = NPROC if (part.kind in ("enum", "fuzz") or (part.n or 0) >= NPROC * 4) else max(1, min(NPROC, (part.n or 1) // 4))
+        if part.kind == "machine":
+            nsh = NPROC if part.n >= NPROC * 4 else 1
         for sh in range(nsh):
             jobs.append((modname, tier, pi, sh, nsh, _subseed(seed, pi, sh)))
     if jobs:
